@@ -83,7 +83,9 @@ def evidence_extra(agg):
     return {'guard_region_line_events': c.get('guard_k_sum', 0) // n,
             'guard_interleavings_total': c.get('guard_words_total_sum', 0) // n,
             'guard_interleavings_run': c.get('guard_interleavings_run', 0),
-            'blocked_turns': c.get('blocked_turns', 0)}
+            'blocked_turns': c.get('blocked_turns', 0),
+            'distinct_executed_interleavings_summed_over_shards':
+                c.get('distinct_executed_interleavings', 0)}
 
 
 class Scheduler:
@@ -218,8 +220,13 @@ def run_shard(spec, rec):
                     'guard_lines': [ln for ln, _ in tr[:k]],
                     'guard_words': len(words), 'example_word': words[len(words) // 2]})
 
+        seen_exec = set()
+
         def judge(word, r, kind):
             rec.ev()
+            if r['executed'] not in seen_exec:
+                seen_exec.add(r['executed'])
+                rec.count('distinct_executed_interleavings')
             out = r['out']
             rec.count('blocked_turns', r['blocked'])
             case = {**case0, 'word': word, 'kind': kind, 'k': word}
